@@ -64,11 +64,28 @@ class Facts:
         self.impls = []
         self.consts = {}
         self.traits = {}
+        texts = []
         for fn in sorted(os.listdir(directory)):
             if not fn.endswith(".json") or fn == "STAMP.json":
                 continue
             with open(os.path.join(directory, fn)) as fh:
-                d = json.loads(normalise_paths(fh.read()))
+                texts.append(normalise_paths(fh.read()))
+        parsed = [json.loads(t) for t in texts]
+        # a known (anchored) function that was merely renamed or moved is given its reference name back before anything looks
+        self.renamed = {}
+        # (types first: the paths of their methods and every signature that mentions them follow)
+        for detect in (_detect_adt_renames, _detect_renames):
+            try:
+                ren = detect(parsed)
+            except Exception:
+                ren = {}
+            if ren:
+                self.renamed.update(ren)
+                for new_, old_ in sorted(((n, o) for o, n in ren.items()), key=lambda x: -len(x[0])):
+                    pat = re.compile(r"(?<![A-Za-z0-9_])" + re.escape(new_) + r"(?![A-Za-z0-9_])")
+                    texts = [pat.sub(lambda m_, old_=old_: old_, t) for t in texts]
+                parsed = [json.loads(t) for t in texts]
+        for d in parsed:
             key = (d["crate"], d["kind"])
             self.crates[key] = {
                 "nonce": d.get("nonce"),
@@ -743,6 +760,103 @@ class no_inline:
 
     def __exit__(self, *a):
         _INLINE_OFF[0] -= 1
+
+
+def type_signature(body):
+    """return type and parameter types of a function body, as one string"""
+    return " | ".join(body.locals[i]["ty"] for i in range(0, body.argc + 1)) if hasattr(body, "locals") else " | ".join(body["locals"][i]["ty"] for i in range(0, body["argc"] + 1))
+
+
+_KNOWN_SIGS = None
+
+
+def known_signatures():
+    global _KNOWN_SIGS
+    if _KNOWN_SIGS is None:
+        try:
+            with open(os.path.join(os.path.dirname(os.path.abspath(__file__)), "known_signatures.json")) as fh:
+                _KNOWN_SIGS = json.load(fh)
+        except (OSError, ValueError):
+            _KNOWN_SIGS = {}
+    return _KNOWN_SIGS
+
+
+def adt_signature(a):
+    """kind, variant names and field (name, type) lists of a type definition, with the type's own path blanked out"""
+    own = a["path"]
+    return json.dumps([a["kind"], [[v["name"] if a["kind"] == "enum" else "", [[f["name"], (f.get("ty") or "").replace(own, "Self")] for f in v["fields"]]] for v in a["variants"]]], sort_keys=True)
+
+
+_KNOWN_ADTS = None
+
+
+def known_adts():
+    global _KNOWN_ADTS
+    if _KNOWN_ADTS is None:
+        try:
+            with open(os.path.join(os.path.dirname(os.path.abspath(__file__)), "known_adts.json")) as fh:
+                _KNOWN_ADTS = json.load(fh)
+        except (OSError, ValueError):
+            _KNOWN_ADTS = {}
+    return _KNOWN_ADTS
+
+
+def _detect_adt_renames(parsed):
+    """{reference path: current path} for workspace types that are gone while exactly one type that the reference does not
+    know has the same definition (variants, field names and types) in the same module (renamed) or under the same name in
+    another module (moved)"""
+    ref = known_adts()
+    if not ref:
+        return {}
+    present = {}
+    for d in parsed:
+        for a in d["adts"]:
+            if a.get("local"):
+                present.setdefault(a["path"], a)
+    missing = [p for p in ref if p not in present]
+    if not missing:
+        return {}
+    new = {p: adt_signature(a) for p, a in present.items() if p not in ref}
+    out, taken = {}, set()
+    for m in sorted(missing):
+        mod, name = m.rsplit("::", 1) if "::" in m else ("", m)
+        same_mod = [n for n, sg in new.items() if sg == ref[m] and (n.rsplit("::", 1)[0] if "::" in n else "") == mod and n not in taken]
+        same_name = [n for n, sg in new.items() if sg == ref[m] and n.rsplit("::", 1)[-1] == name and n not in taken]
+        pick = same_mod[0] if len(same_mod) == 1 else (same_name[0] if len(same_name) == 1 else None)
+        if pick is not None:
+            out[m] = pick
+            taken.add(pick)
+    return out
+
+
+def _detect_renames(parsed):
+    """{reference path: current path} for known functions that are gone while exactly one *new* function with the same type
+    signature exists in the same module (renamed) or under the same name elsewhere in the workspace (moved)"""
+    sigs = known_signatures()
+    known = known_functions()
+    if not sigs or not known:
+        return {}
+    present = {}
+    for d in parsed:
+        if d["kind"] in ("procmacro",):
+            continue
+        for b in d["bodies"]:
+            if b["kind"] in ("fn", "assocfn") and "{closure" not in b["path"] and not b["path"].startswith("<"):
+                present.setdefault(b["path"], b)
+    missing = [p for p in sigs if p not in present]
+    if not missing:
+        return {}
+    new = {p: type_signature(b) for p, b in present.items() if p not in known}
+    out, taken = {}, set()
+    for m in sorted(missing):
+        mod, name = m.rsplit("::", 1) if "::" in m else ("", m)
+        same_mod = [n for n, sg in new.items() if sg == sigs[m] and (n.rsplit("::", 1)[0] if "::" in n else "") == mod and n not in taken]
+        same_name = [n for n, sg in new.items() if sg == sigs[m] and n.rsplit("::", 1)[-1] == name and n not in taken]
+        pick = same_mod[0] if len(same_mod) == 1 else (same_name[0] if len(same_name) == 1 else None)
+        if pick is not None:
+            out[m] = pick
+            taken.add(pick)
+    return out
 
 
 def known_functions():
